@@ -364,10 +364,12 @@ class RefsContainer:
             prefix is stripped from the ref names returned.
         """
         keys: set[Ref] = set()
-        base_len = len(base) + 1
+        # ``base`` may or may not end in a slash (b"refs/heads" as well as
+        # LOCAL_BRANCH_PREFIX are passed in); match whole path components only.
+        prefix = base.rstrip(b"/") + b"/"
         for refname in self.allkeys():
-            if refname.startswith(base):
-                keys.add(Ref(refname[base_len:]))
+            if refname.startswith(prefix):
+                keys.add(Ref(refname[len(prefix) :]))
         return keys
 
     def as_dict(self, base: Ref | None = None) -> dict[Ref, ObjectID]:
